@@ -17,6 +17,13 @@ type histParams struct {
 	LiveCheck  bool
 	SyncPct    int
 	CompactPct int
+	// Scenarios injects compaction-specific phases (delete everything, overwrite everything, delete keys whose
+	// records live in the oldest segment) followed by Compact.
+	Scenarios bool
+	// WindowBudget is the number of operations slipped into the windows of one compaction.
+	WindowBudget int
+	// Classify is called before a window write with the key about to be written.
+	Classify func(hb *core.HB, key []byte)
 }
 
 var crashValueSizes = []int{0, 1, 10, 10, 20, 100, 100, 300, 300, 700, 1300}
@@ -48,18 +55,21 @@ func crashKeys(rng *rand.Rand, seed uint32) *core.KeySet {
 // windowWriter returns an InWindow callback that slips 0-2 writes into compaction windows, choosing keys
 // among those with live records (so that records not yet reached / already promoted get overwritten or
 // deleted) and absent keys.
-func windowWriter(hb *core.HB, rng *rand.Rand, ks *core.KeySet, valIdx *int, maxPerCompaction int) func(string) {
+func windowWriter(hb *core.HB, rng *rand.Rand, ks *core.KeySet, valIdx *int, maxPerCompaction int, classify func(hb *core.HB, key []byte)) func(string) {
 	budget := 0
 	last := ""
 	return func(point string) {
 		if point == "compact:picked" {
 			budget = maxPerCompaction
+			if rng.Intn(4) == 0 {
+				budget = 0 // an undisturbed compaction now and then (e.g. one that removes every segment)
+			}
 		}
 		if budget <= 0 || hb.Failed != "" {
 			return
 		}
 		// be dense at the beginning of a compaction, sparse later
-		if point == "compact:record" && rng.Intn(3) != 0 {
+		if point == "compact:record" && rng.Intn(5) >= 2 {
 			return
 		}
 		n := 1 + rng.Intn(2)
@@ -67,7 +77,11 @@ func windowWriter(hb *core.HB, rng *rand.Rand, ks *core.KeySet, valIdx *int, max
 			budget--
 			key := ks.Keys[rng.Intn(len(ks.Keys))]
 			*valIdx++
-			switch rng.Intn(10) {
+			op := rng.Intn(10)
+			if op < 8 && classify != nil {
+				classify(hb, key)
+			}
+			switch op {
 			case 0, 1, 2, 3, 4:
 				hb.Put(key, core.MakeVal(*valIdx, crashValueSizes[rng.Intn(len(crashValueSizes))]))
 				hb.C.Stat("window_puts", 1)
@@ -101,13 +115,47 @@ func genHistory(c *core.Ctx, rng *rand.Rand, base crashfs.Image, admissible []co
 	}
 	hb.LiveCheck = p.LiveCheck
 	if p.Writers {
-		hb.InWindow = windowWriter(hb, rng, ks, valIdx, 6)
+		budget := p.WindowBudget
+		if budget == 0 {
+			budget = 6
+		}
+		hb.InWindow = windowWriter(hb, rng, ks, valIdx, budget, p.Classify)
 	}
 	bigVal := int(cfg.MaxSeg) + 100 + rng.Intn(300) // a record larger than a whole segment
 	for i := 0; i < p.NOps && hb.Failed == ""; i++ {
 		key := ks.Keys[rng.Intn(len(ks.Keys))]
 		r := rng.Intn(100)
 		*valIdx++
+		if p.Scenarios && rng.Intn(40) == 0 {
+			switch rng.Intn(3) {
+			case 0: // delete everything, then compact (may remove every segment)
+				for _, k := range ks.Keys {
+					if _, ok := hb.Ref[string(k)]; ok && hb.Failed == "" {
+						hb.Delete(k)
+					}
+				}
+				c.Stat("scenario_delete_all", 1)
+			case 1: // overwrite everything: old segments become fully dead
+				for _, k := range ks.Keys {
+					if _, ok := hb.Ref[string(k)]; ok && hb.Failed == "" {
+						*valIdx++
+						hb.Put(k, core.MakeVal(*valIdx, 10+rng.Intn(90)))
+					}
+				}
+				c.Stat("scenario_overwrite_all", 1)
+			default: // delete a third of the live keys: delete markers land in the newest segment
+				for _, k := range ks.Keys {
+					if _, ok := hb.Ref[string(k)]; ok && rng.Intn(3) == 0 && hb.Failed == "" {
+						hb.Delete(k)
+					}
+				}
+				c.Stat("scenario_delete_third", 1)
+			}
+			if hb.Failed == "" {
+				hb.Compact()
+			}
+			continue
+		}
 		switch {
 		case r < 50:
 			vl := crashValueSizes[rng.Intn(len(crashValueSizes))]
